@@ -47,7 +47,11 @@ def parseDecision (s : String) : Option Decision :=
 def cfgOf (sc : ScJ) : Option Cfg := do
   let fb ← Driver.FlowFam.parseFb sc.fb
   let ex ← Driver.FlowFam.parseStyle sc.execS
-  let kind ← match sc.kind with | "canceled" => some CtxKind.canceled | "deadline" => some CtxKind.deadline | _ => none
+  let kind ← match sc.kind with
+    | "canceled" => some CtxKind.canceled | "deadline" => some CtxKind.deadline
+    -- cancelled with a custom cause / by hand long before a far deadline: ctx.Err() is context.Canceled
+    | "cause" => some CtxKind.canceled | "fardeadline" => some CtxKind.canceled
+    | _ => none
   let items ← sc.items.mapM fun it => do
     let ex ← it.exec.mapM parseOutVal
     let fb ← parseOutVal it.fb
